@@ -143,7 +143,11 @@ def bridge_concat(ex, st, new, parts):
             continue
         ln = z3.Length(p_)
         lo = z3.simplify(off)
-        assume_theorem(st, z3.ForAll([j], z3.Implies(z3.And(j >= lo, j < lo + ln), new[j] == p_[z3.simplify(j - lo)]), patterns=[new[j]]))
+        body_ = z3.Implies(z3.And(j >= lo, j < lo + ln), new[j] == p_[z3.simplify(j - lo)])
+        try:
+            assume_theorem(st, z3.ForAll([j], body_, patterns=[new[j]]))
+        except z3.Z3Exception:  # the new sequence is an ite / cannot be a trigger
+            assume_theorem(st, z3.ForAll([j], body_))
         off = off + ln
     assume_theorem(st, z3.Length(new) == z3.simplify(off))
     return new
@@ -196,7 +200,6 @@ def dict_wf(st, t, d, ex=None):
     assume_theorem(st, (z3.Length(ks) == 0) == (dom == z3.K(t.k.sort(), z3.BoolVal(False))))
     assume_theorem(st, z3.ForAll([i], z3.Implies(z3.And(0 <= i, i < z3.Length(ks)), z3.Select(dom, ks[i]))))
     assume_theorem(st, z3.ForAll([i, j], z3.Implies(z3.And(0 <= i, i < j, j < z3.Length(ks)), ks[i] != ks[j])))
-
 
 def set_iteration_order(st, v: Val) -> Val:
     """list(S) / iteration of a set: an ARBITRARY duplicate-free enumeration of S (hash order)."""
@@ -353,7 +356,9 @@ def sorted_facts(ex, st, src: Val, r, et, key, reverse, node):
         st.assume(z3.ForAll([x], z3.Contains(r, z3.Unit(x)) == z3.Contains(s, z3.Unit(x))))
         seq_member_facts(st, r)
         seq_member_facts(st, s)
-        seq_position_witness(st, r, et.sort())
+        if getattr(ex.c, "seq_positions", False):
+            # (together with the member fact this is a matching loop for some goals: only with seq_positions=True)
+            seq_position_witness(st, r, et.sort())
         strict = False
     else:
         dom = lift(src) if isinstance(t, T.Set) else t.sort().dom(lift(src))
@@ -478,6 +483,7 @@ def _list(ex, st, args, kwargs, node):
     if isinstance(t, T.Set):
         return set_iteration_order(st, v)
     if isinstance(t, T.Dict):
+        dict_wf(st, t, lift(v), ex)
         return Val(T.List(t.k), t.sort().keys(lift(v)))
     if isinstance(t, T.Ref):
         info = ex.iter_info(v, st, node)
@@ -1265,6 +1271,10 @@ def value_method(ex, st, recv: Val, name, args, kwargs, node) -> Val:
             for l in range(n):
                 out = z3.If(ln == l, z3.Concat(s, z3.StringVal(" " * (n - l))), out)
             return Val(T.STR, out)
+        if name in ("strip", "lstrip", "rstrip") and len(args) == 1 and args[0].ty == T.STR and not kwargs:
+            # a SYMBOLIC character-set argument: an uninterpreted binary function of (s, chars)
+            f = z3.Function(f"str_{name}2", z3.StringSort(), z3.StringSort(), z3.StringSort())
+            return Val(T.STR, f(s, lift(args[0], T.STR)))
         if name == "format":
             # a literal template whose fields are all plain `{}`: concatenation of str() of the arguments
             import string as _string
